@@ -153,7 +153,22 @@ def setitem(o, idx, v):
     """functional update o[idx] = v (numpy in-place store); idx: int or tuple of ints (leading axes)"""
     if not isinstance(idx, tuple): idx = (idx,)
     idx = tuple(norm_index(i, n) for i, n in zip(idx, o.shape))
-    if any(isinstance(i, (slice, SArr)) for i in idx): raise Unsupported("setitem with slice/array index")
+    if any(isinstance(i, SArr) and i.ndim > 0 for i in idx): raise Unsupported("setitem with array index")
+    if any(isinstance(i, slice) for i in idx):
+        # numpy store with integer and slice indices, e.g. a[0, :] = v ; v is a scalar or has one axis per sliced (incl. trailing) axis
+        plan = [("slice",) + tuple(slice_bounds(i, n)) if isinstance(i, slice) else ("int", i) for i, n in zip(idx, o.shape)]
+        plan += [("slice", 0, n) for n in o.shape[len(idx):]]
+        nsl = sum(1 for p_ in plan if p_[0] == "slice")
+        if isinstance(v, SArr) and v.ndim != nsl: raise Unsupported("setitem: broadcasting of the stored value")
+        def get_s(full):
+            conds = []; sub = []
+            for p_, f in zip(plan, full):
+                if p_[0] == "int": conds.append(toz3(f) == toz3(p_[1]))
+                else:
+                    conds += [toz3(f) >= toz3(p_[1]), toz3(f) < toz3(p_[1]) + toz3(p_[2])]; sub.append(f if concrete_int(p_[1]) == 0 else binop_("Sub", f, p_[1]))
+            newv = v.get(tuple(sub)) if isinstance(v, SArr) else v
+            return Ite(z3.And(*conds), newv, o.get(tuple(full)))
+        return SArr(o.shape, get_s)
     k = len(idx)
     def get(full):
         cond = z3.And(*[toz3(a) == toz3(b) for a, b in zip(full[:k], idx)]) if k else z3.BoolVal(True)
